@@ -110,6 +110,7 @@ type FuncContract struct {
 	GhostEntry  bool     // the ghost update happens at entry (ghostdef clauses are then proved at exit like any ensures)
 	InlineCalls []string // callees whose body is inlined here although they have a contract of their own
 	UseLemmas  []string // lemmas of the spec libraries given to this function's obligations
+	LemmaFor   map[string]map[string]bool // lemma -> clause labels that may use it (absent: every obligation)
 	Opaque     []string // defined spec functions treated as uninterpreted in this function's obligations
 	Ghost      []string // ghost lvalues (Xxh(x) ...) re-defined at exit by the ghostdef clauses
 }
@@ -641,7 +642,25 @@ func loadContractFile(file string, out map[string]*FuncContract) error {
 			}
 			cur.Sinks = append(cur.Sinks, SinkDecl{strings.TrimSpace(parts[0]), strings.TrimSpace(parts[1])})
 		case "lemmas":
-			cur.UseLemmas = append(cur.UseLemmas, strings.Fields(rest)...)
+			// lemmas NAME ... [for LABEL ...]
+			names, labels := rest, ""
+			if i := strings.Index(rest, " for "); i >= 0 {
+				names, labels = rest[:i], rest[i+5:]
+			}
+			for _, n := range strings.Fields(names) {
+				cur.UseLemmas = append(cur.UseLemmas, n)
+				if labels != "" {
+					if cur.LemmaFor == nil {
+						cur.LemmaFor = map[string]map[string]bool{}
+					}
+					if cur.LemmaFor[n] == nil {
+						cur.LemmaFor[n] = map[string]bool{}
+					}
+					for _, l := range strings.Fields(labels) {
+						cur.LemmaFor[n][l] = true
+					}
+				}
+			}
 		case "opaque":
 			cur.Opaque = append(cur.Opaque, strings.Fields(rest)...)
 		case "inline-calls":
